@@ -124,7 +124,7 @@ impl Property for C06 {
     fn budget(&self, tier: Tier) -> Budget {
         match tier {
             Tier::Quick => Budget {
-                seconds: 25,
+                seconds: 60,
                 max_cases: 60_000,
             },
             Tier::Thorough => Budget {
